@@ -295,11 +295,23 @@ def w_model(ctx, rng, i):
     centre = bool((i // 25) % 2) if backing == "vector" else True
     d = int(rng.integers(3, 41 if ctx.tier == "thorough" else 20))
     n = {"n>d": d + int(rng.integers(2, 12)), "n=d": d, "n=d+1": d + 1, "n=d-1": max(2, d - 1), "n<d": max(2, d - int(rng.integers(2, d)))}[rel]
+    wide = False
+    if backing == "vector" and rng.random() < 0.04:
+        # many features, few samples - and a round number of them (a 40 x 50 image, 1000 landmarks' coordinates)
+        d = [1000, 1000, 2000][rng.integers(0, 3)]
+        n = int(rng.integers(4, 13))
+        rel = "n<d"
+        wide = True
+    far = None
     if backing == "vector":
         X = spectrum_data(rng, n, d, centre)
         if rng.random() < 0.4:
             # the data in any unit: nanometres to kilometres (the documented cut-off of the decomposition is relative)
             X = X * 10.0 ** rng.uniform(-10, 5)
+        elif centre and rng.random() < 0.3:
+            # data far from the origin (map coordinates, time stamps): the model of the centred data all the same
+            far = 10.0 ** rng.uniform(3, 6)
+            X = X + rng.choice([-1.0, 1.0], d) * far * 10.0
         Xin = X.copy() if rng.random() < 0.5 else [row.copy() for row in X]
         model = PCAVectorModel(Xin, centre=centre, inplace=bool(rng.random() < 0.5))
     else:
@@ -378,7 +390,23 @@ def w_model(ctx, rng, i):
     all_eigs = np.array(model._eigenvalues, copy=True)   # at this point nothing is trimmed: these are all eigenvalues
     orig = float(all_eigs.sum())
     for step in range(int(rng.integers(1, 11))):
-        kind = ["int", "float", "trim_int", "trim_float", "restore", "query", "copy", "whiten", "mean_handed_out"][rng.integers(0, 9)]
+        kind = ["int", "float", "trim_int", "trim_float", "restore", "query", "copy", "whiten", "mean_handed_out", "one_then_everything"][rng.integers(0, 10)]
+        if kind == "one_then_everything" and (any("trim" in e for e in events) or model.variance_ratio() > 1.0 or float(np.sum(model._eigenvalues)) < orig):
+            kind = "query"          # (1.0 is only a legal request while nothing has been trimmed away)
+        if kind == "one_then_everything":
+            # down to a single component, then "keep all the variance" in the documented fraction form
+            model.n_active_components = 1
+            try:
+                model.n_active_components = 1.0
+            except ValueError:
+                # (the kept-variance ratio of an untrimmed model can come out one rounding below 1: the request is then out of the documented range)
+                ctx.bump("fraction_one_refused_kept_ratio_rounds_below_one")
+                model.n_active_components = model.n_components
+            if model.n_active_components != model.n_components:
+                ctx.fail("variance_fraction_gives_the_wrong_number_of_components", cls=cls, mech="float:1.0_after_a_single_component",
+                         fraction=1.0, got=int(model.n_active_components), expected=int(model.n_components), history=events)
+            events.append("int"); events.append("float")
+            continue
         if kind == "mean_handed_out":
             if backing == "vector":
                 continue
